@@ -12,8 +12,10 @@ REPO = Path(os.environ.get("VERIF_REPO", "/repo"))
 DEPS = VERIF / ".deps"
 WORK = VERIF / ".work"
 SCRATCH_TREE = REPO.resolve() != Path("/repo")  # mutant / seeded-change validation against a scratch worktree
-EVIDENCE = (WORK / "evidence-scratch") if SCRATCH_TREE else VERIF / "evidence"
-REPLAYS = (WORK / "replays-scratch") if SCRATCH_TREE else VERIF / "replays"
+COVERAGE = os.environ.get("VERIF_COVERAGE")  # directory: workers run under coverage.py (tools/coverage_report.sh)
+_SIDE = SCRATCH_TREE or bool(COVERAGE)  # side runs never touch the committed evidence / replays
+EVIDENCE = (WORK / "evidence-scratch") if _SIDE else VERIF / "evidence"
+REPLAYS = (WORK / "replays-scratch") if _SIDE else VERIF / "replays"
 KNOWN = VERIF / "known_findings.json"
 WHEELS = "/opt/veriftools/wheels"
 PY = "/venv/bin/python"
